@@ -2,6 +2,8 @@ import Ccp.Spec.Indent
 import Ccp.Proofs.TreeLink
 import Ccp.Proofs.TreeLossless
 import Ccp.Proofs.TreeKeep
+import Ccp.Spec.BannerLinks
+import Ccp.Proofs.TreeBanner
 /-!
 # C02 — parent/child links follow the indentation rule
 
@@ -11,7 +13,15 @@ otherwise it is the largest `j < i` such that line `j` is a configuration line (
 a comment) indented strictly less than line `i`, and `i` if there is no such line.
 `specChildren infos p` lists the `i ≠ p` with `specParent infos i = p`, ascending.
 
-Property theorems only; helper lemmas live in `Ccp.Proofs.TreeLink` / `Ccp.Proofs.TreeLossless`.
+The specification with banner and macro bodies included (`Ccp/Spec/BannerLinks.lean`):
+`specParentFull cfg ls i` is the last `macro name` line (syntax ios) whose stretch reaches line
+`i`; else the last banner start whose stretch reaches `i`; else `specParent`.  The stretch of a
+banner start = the following lines up to and including the first one containing the delimiter
+(to the end of the config if there is none); of a macro start = up to and including the first
+`@` line.  See the second half of this file.
+
+Property theorems only; helper lemmas live in `Ccp.Proofs.TreeLink` / `Ccp.Proofs.TreeLossless` /
+`Ccp.Proofs.TreeBanner`.
 -/
 namespace Ccp.C02
 open Ccp.Tree Ccp.Py
@@ -194,5 +204,253 @@ example : linkByIndent iosCfg ["a".toList, " b".toList, "  c".toList, "  d".toLi
     = [0, 0, 1, 1, 0, 4] := by decide
 /-- the hypotheses matter: a banner body is *not* linked by indentation -/
 example : (parse iosCfg ["banner motd ^".toList, " x".toList, "  y".toList, "^".toList]).parents = [0, 0, 0, 0] := by decide
+
+/-! ## banner and macro bodies included: the final tree of EVERY line list -/
+
+/-- `covers cov ls q j`: line `j` comes after line `q` and within the stretch of `q`. -/
+theorem covers_spec (cov : Str → List Str → Nat) (ls : List Str) (q j : Nat) :
+    covers cov ls q j = true ↔ q < j ∧ j - q ≤ cov (ls.getD q []) (ls.drop (q + 1)) :=
+  covers_iff cov ls q j
+
+/-- **Banner stretch, read position by position.**  For a banner start `x` followed by the lines
+`rest`, the line `rest[k]` is in the stretch iff `x` is a banner start whose delimiter `d` is
+recognised and occurs at most once in `x`, the line exists, and none of `rest[0..k-1]` contains
+`d`.  So the closing line (the first one that contains `d`) is the last line of the stretch, an
+unterminated banner runs to the end of the config, and nothing after the closing line belongs
+to it. -/
+theorem coverB_spec (x : Str) (rest : List Str) (k : Nat) :
+    k + 1 ≤ coverB x rest ↔
+      isBannerStart x = true ∧ ∃ d, bannerDelim x = some d ∧ countChar d x < 2 ∧ k < rest.length ∧
+        ∀ m y, m < k → rest[m]? = some y → (strip y).contains d = false := by
+  unfold coverB
+  by_cases hb : isBannerStart x = true
+  · simp only [hb, if_true, true_and]
+    cases hd : bannerDelim x with
+    | none => simp
+    | some d =>
+      by_cases hc : countChar d x ≥ 2
+      · simp only [hc, if_true, Option.some.injEq, exists_eq_left']
+        constructor
+        · intro h; omega
+        · rintro ⟨h, _⟩; omega
+      · simp only [hc, if_false, Option.some.injEq, exists_eq_left', bannerLinkLen_spec]
+        constructor
+        · rintro ⟨h1, h2⟩; exact ⟨by omega, h1, h2⟩
+        · rintro ⟨_, h1, h2⟩; exact ⟨h1, h2⟩
+  · simp [hb]
+
+/-- **Macro stretch, read position by position**: `rest[k]` is in the stretch of the macro start
+`x` iff `x` begins with `macro name `, the line exists and none of `rest[0..k-1]` is `@` (trailing
+white space ignored) — the `@` line itself is the last line of the stretch. -/
+theorem coverM_spec (x : Str) (rest : List Str) (k : Nat) :
+    k + 1 ≤ coverM x rest ↔
+      isMacroStart x = true ∧ k < rest.length ∧
+        ∀ m y, m < k → rest[m]? = some y → (rstrip y == ['@']) = false := by
+  unfold coverM
+  by_cases hb : isMacroStart x = true
+  · simp only [hb, if_true, true_and, macroBodyLen_spec]
+  · simp [hb]
+
+/-- the stretch of a banner start is its body in the sense of `Spec/BlankKeep.lean` (the lines
+protected from `ignore_blank_lines`) plus the closing line when there is one -/
+theorem bannerStretch_eq_body_plus_close (d : Char) (rest : List Str) :
+    bannerLinkLen d rest = min (bannerBodyLen d rest + 1) rest.length :=
+  bannerLinkLen_eq d rest
+
+/-- `lastCover cov ls j n` is the largest `q < n` whose stretch reaches `j` … -/
+theorem lastCover_some (cov : Str → List Str → Nat) (ls : List Str) (j n q : Nat) :
+    lastCover cov ls j n = some q ↔
+      q < n ∧ covers cov ls q j = true ∧ ∀ m, q < m → m < n → covers cov ls m j = false :=
+  lastCover_eq_some cov ls j n q
+
+/-- … and `none` exactly when no `q < n` reaches `j`. -/
+theorem lastCover_none (cov : Str → List Str → Nat) (ls : List Str) (j n : Nat) :
+    lastCover cov ls j n = none ↔ ∀ m, m < n → covers cov ls m j = false :=
+  lastCover_eq_none cov ls j n
+
+/-- **The full specification, read declaratively.**  `p` is the specified final parent of line
+`i` iff one of:
+* (syntax ios) `p < i` is a macro start whose stretch reaches `i` and no macro start strictly
+  between `p` and `i` reaches `i`;
+* no macro start (ios) reaches `i`, `p < i` is a banner start whose stretch reaches `i` and no
+  banner start strictly between reaches `i`;
+* no macro start (ios) and no banner start reaches `i`, and `p` is the indentation parent
+  `specParent` — in particular a line *after* a stretch keeps its indentation parent even
+  when that parent is a body line. -/
+theorem specParentFull_spec (cfg : Cfg) (ls : List Str) (i p : Nat) :
+    specParentFull cfg ls i = p ↔
+      (cfg.ios = true ∧ p < i ∧ covers coverM ls p i = true ∧
+        ∀ m, p < m → m < i → covers coverM ls m i = false) ∨
+      ((cfg.ios = true → ∀ m, m < i → covers coverM ls m i = false) ∧
+        p < i ∧ covers coverB ls p i = true ∧ ∀ m, p < m → m < i → covers coverB ls m i = false) ∨
+      ((cfg.ios = true → ∀ m, m < i → covers coverM ls m i = false) ∧
+        (∀ m, m < i → covers coverB ls m i = false) ∧ specParent (ls.map (info cfg)) i = p) := by
+  unfold specParentFull
+  have hM : macroOwner cfg ls i = none ↔ (cfg.ios = true → ∀ m, m < i → covers coverM ls m i = false) := by
+    unfold macroOwner
+    cases hi : cfg.ios with
+    | false => simp
+    | true => simp [lastCover_eq_none]
+  cases hm : macroOwner cfg ls i with
+  | some m =>
+    have hios : cfg.ios = true := by
+      unfold macroOwner at hm
+      cases hi : cfg.ios with
+      | false => simp [hi] at hm
+      | true => rfl
+    have hm' : lastCover coverM ls i i = some m := by simpa [macroOwner, hios] using hm
+    obtain ⟨h1, h2, h3⟩ := (lastCover_eq_some coverM ls i i m).mp hm'
+    have hnot : ¬ (cfg.ios = true → ∀ m, m < i → covers coverM ls m i = false) := by
+      intro h; have := h hios m h1; rw [h2] at this; cases this
+    constructor
+    · intro h; subst h; exact Or.inl ⟨hios, h1, h2, h3⟩
+    · rintro (⟨_, q1, q2, q3⟩ | ⟨h, _⟩ | ⟨h, _⟩)
+      · have := (lastCover_eq_some coverM ls i i p).mpr ⟨q1, q2, q3⟩
+        rw [hm'] at this; simpa using this
+      · exact absurd h hnot
+      · exact absurd h hnot
+  | none =>
+    have hno := hM.mp hm
+    simp only
+    cases hb : bannerOwner ls i with
+    | some b =>
+      have hb' : lastCover coverB ls i i = some b := hb
+      obtain ⟨h1, h2, h3⟩ := (lastCover_eq_some coverB ls i i b).mp hb'
+      constructor
+      · intro h; subst h; exact Or.inr (Or.inl ⟨hno, h1, h2, h3⟩)
+      · rintro (⟨hios, q1, q2, _⟩ | ⟨_, q1, q2, q3⟩ | ⟨_, h, _⟩)
+        · have := hno hios p q1; rw [q2] at this; cases this
+        · have := (lastCover_eq_some coverB ls i i p).mpr ⟨q1, q2, q3⟩
+          rw [hb'] at this; simpa using this
+        · have := h b h1; rw [h2] at this; cases this
+    | none =>
+      have hb' : lastCover coverB ls i i = none := hb
+      have hnb := (lastCover_eq_none coverB ls i i).mp hb'
+      constructor
+      · intro h; exact Or.inr (Or.inr ⟨hno, hnb, h⟩)
+      · rintro (⟨hios, q1, q2, _⟩ | ⟨_, q1, q2, _⟩ | ⟨_, _, h⟩)
+        · have := hno hios p q1; rw [q2] at this; cases this
+        · have := hnb p q1; rw [q2] at this; cases this
+        · exact h
+
+/-- **Passes 1–3 compute the full specification**, for every configuration of the parser and
+EVERY list of lines — banner starts nested, overlapping, unterminated, macros containing banner
+starts and vice versa, indented closing lines, anything.  No hypotheses. -/
+theorem link_links_eq_spec_full (cfg : Cfg) (ls : List Str) :
+    (link cfg ls).texts = ls ∧
+    (link cfg ls).parents = (List.range ls.length).map (specParentFull cfg ls) ∧
+    ∀ p, children (link cfg ls) p = specChildrenFull cfg ls p :=
+  ⟨link_texts_ll cfg ls, link_parents_eq_spec cfg ls, link_children_eq_spec cfg ls⟩
+
+/-- **Final tree, all line lists, every option set** (`ignore_blank_lines` on or off): the
+parents of the tree returned by `parse` (bootstrap + commit) are `specParentFull` of the tree's
+own line texts, and its child lists are the specified ones.  No hypotheses.  (Which texts
+remain is C01's business: all of them when `ignore_blank_lines` is off, the `keepSpec` ones
+otherwise — the next two theorems substitute that in.) -/
+theorem parse_links_eq_spec_all (cfg : Cfg) (ls : List Str) :
+    (parse cfg ls).parents =
+      (List.range (parse cfg ls).texts.length).map (specParentFull cfg (parse cfg ls).texts) ∧
+    ∀ p, children (parse cfg ls) p = specChildrenFull cfg (parse cfg ls).texts p := by
+  have h := parse_is_link cfg ls
+  constructor
+  · conv => lhs; rw [h]
+    exact link_parents_eq_spec cfg _
+  · intro p
+    conv => lhs; rw [h]
+    exact link_children_eq_spec cfg _ p
+
+/-- **Final tree, `ignore_blank_lines` off, ALL line lists** (the extension of
+`parse_links_eq_spec` that drops its two hypotheses): texts unchanged, parents =
+`specParentFull`, child lists = `specChildrenFull`. -/
+theorem parse_links_eq_spec_full (cfg : Cfg) (ls : List Str) (hi : cfg.ignoreBlank = false) :
+    (parse cfg ls).texts = ls ∧
+    (parse cfg ls).parents = (List.range ls.length).map (specParentFull cfg ls) ∧
+    ∀ p, children (parse cfg ls) p = specChildrenFull cfg ls p := by
+  have ht := parse_texts_noIgnore cfg ls hi
+  have h := parse_links_eq_spec_all cfg ls
+  rw [ht] at h
+  exact ⟨ht, h.1, h.2⟩
+
+/-- **Final tree, `ignore_blank_lines` on, ALL line lists**: the texts are the lines selected
+by `keepSpec` (non-blank, or protected by a banner / macro start — C01), and the links are the
+full specification applied to those kept lines. -/
+theorem parse_links_eq_spec_full_ignore_blank (cfg : Cfg) (ls : List Str) (hi : cfg.ignoreBlank = true) :
+    let kept := (ls.zipIdx.filter (fun xj => keepSpec cfg ls xj.2)).map Prod.fst
+    (parse cfg ls).texts = kept ∧
+    (parse cfg ls).parents = (List.range kept.length).map (specParentFull cfg kept) ∧
+    ∀ p, children (parse cfg ls) p = specChildrenFull cfg kept p := by
+  intro kept
+  have ht : (parse cfg ls).texts = kept := parse_texts_ignore cfg ls hi
+  have h := parse_links_eq_spec_all cfg ls
+  rw [ht] at h
+  exact ⟨ht, h.1, h.2⟩
+
+/-- **Consistency with the indentation-only statement**: without banner starts and (ios) macro
+starts the full specification *is* the indentation rule, so `parse_links_eq_spec` is the
+special case of `parse_links_eq_spec_full`. -/
+theorem specParentFull_eq_specParent_of_no_start (cfg : Cfg) (ls : List Str)
+    (hb : ∀ x ∈ ls, isBannerStart x = false)
+    (hm : cfg.ios = true → ∀ x ∈ ls, isMacroStart x = false) (i : Nat) (hi : i < ls.length) :
+    specParentFull cfg ls i = specParent (ls.map (info cfg)) i :=
+  specParentFull_plain cfg ls hb hm i hi
+
+/-- **Syntax dependence, made precise**: two configurations with the same comment delimiters
+give the same final links on a line list without `macro name` lines, banners included
+(`ignore_blank_lines` off) — the `macro name` walk is the only place where the syntax enters. -/
+theorem parse_links_syntax_independent_full (cfg cfg' : Cfg) (ls : List Str)
+    (hd : cfg.delims = cfg'.delims) (hm : ∀ x ∈ ls, isMacroStart x = false)
+    (hi : cfg.ignoreBlank = false) (hi' : cfg'.ignoreBlank = false) :
+    (parse cfg ls).parents = (parse cfg' ls).parents := by
+  rw [(parse_links_eq_spec_full cfg ls hi).2.1, (parse_links_eq_spec_full cfg' ls hi').2.1]
+  apply List.map_congr_left
+  intro i hi
+  have hil : i < ls.length := List.mem_range.mp hi
+  have hnone : ∀ c : Cfg, macroOwner c ls i = none := by
+    intro c
+    unfold macroOwner
+    split
+    · exact lastCover_none_of_no_cover coverM ls i i
+        (fun q x hx => by simp [coverM, hm x (List.mem_of_getElem? hx)]) (by omega)
+    · rfl
+  unfold specParentFull
+  rw [hnone cfg, hnone cfg', info_delims cfg cfg' hd]
+
+/-! ## non-vacuity (banner / macro part) -/
+
+/-- overlapping banner starts: line 1 is itself a banner start inside the stretch of line 0;
+its stretch (delimiter `#`) runs to line 4, beyond the closing line 3 of the outer banner.  The
+last start wins: lines 2, 3, 4 belong to line 1; line 5 (after both stretches) keeps its
+indentation parent, which is the body line 4. -/
+private def exOverlap : List Str :=
+  ["banner motd ^".toList, "banner exec #".toList, " x".toList, "^".toList, "y #".toList, " z".toList]
+
+example : (List.range 6).map (specParentFull iosCfg exOverlap) = [0, 0, 1, 1, 1, 4] := by decide
+example : (parse iosCfg exOverlap).parents = [0, 0, 1, 1, 1, 4] := by decide
+example : (parse nxosCfg exOverlap).parents = [0, 0, 1, 1, 1, 4] := by decide
+example : covers coverB exOverlap 0 3 = true ∧ covers coverB exOverlap 1 3 = true ∧
+    covers coverB exOverlap 0 4 = false ∧ covers coverB exOverlap 1 5 = false := by decide
+example : specChildrenFull iosCfg exOverlap 1 = [2, 3, 4] ∧ specChildrenFull iosCfg exOverlap 4 = [5] := by decide
+
+/-- a macro containing a banner start: inside the macro's stretch (lines 1–5) the macro wins
+(ios only), but the banner start at line 2 is unterminated (`^` never occurs again) and still
+owns the lines AFTER the macro's closing `@` (6, 7) until the next banner start's stretch (8, 9);
+an indented ` @ ` does NOT close the macro (only trailing white space is ignored); deeper body
+lines followed by dedents -/
+private def exMixed : List Str :=
+  ["macro name m".toList, " a".toList, "banner motd ^".toList, "   b".toList, " @ ".toList, "@".toList,
+   "  c".toList, "banner login %".toList, "  d".toList, " e".toList]
+
+example : (List.range 10).map (specParentFull iosCfg exMixed) = [0, 0, 0, 0, 0, 0, 2, 2, 7, 7] := by decide
+example : (parse iosCfg exMixed).parents = [0, 0, 0, 0, 0, 0, 2, 2, 7, 7] := by decide
+/-- the same lines under a syntax without macros -/
+example : (List.range 10).map (specParentFull nxosCfg exMixed) = [0, 0, 2, 2, 2, 2, 2, 2, 7, 7] := by decide
+example : (parse nxosCfg exMixed).parents = [0, 0, 2, 2, 2, 2, 2, 2, 7, 7] := by decide
+/-- with `ignore_blank_lines` a blank line outside every stretch goes, one inside stays, and the
+links are the specification over the kept lines -/
+example : (parse { iosCfg with ignoreBlank := true }
+    ["a".toList, "".toList, "banner motd ^".toList, "".toList, " x".toList, "^".toList, " b".toList]).parents
+    = [0, 1, 1, 1, 1, 4] := by decide
+/-- the hypotheses of `parse_links_syntax_independent_full` are satisfiable by a config WITH a banner -/
+example : ∀ x ∈ exOverlap, isMacroStart x = false := by decide
 
 end Ccp.C02
